@@ -38,6 +38,12 @@ inductive EStmt
   | ifNil (f : Fld) (thn els : List EStmt)    -- `if recv.f == nil { thn } else { els }`
   | ifNotNil (f : Fld) (thn els : List EStmt) -- `if recv.f != nil { thn } else { els }`
   | ifSzEq (n : Nat) (thn : List EStmt)       -- `if sz == n { thn }`
+  | decSz                                     -- `zb0001Len--`      (msgp's omitempty bookkeeping: the count of fields that will be written)
+  | orMask (bit : Nat)                        -- `zb0001Mask |= bit` (… and which are left out); `bit` is a single bit (the translator checks)
+  | rawOrSz (base : Nat)                      -- `append(o, 0x80|uint8(zb0001Len))`: the fixmap header; the translator checks `base = 0x80`
+                                              --   and a count that starts ≤ 15 and only goes down, so that `|` is `+`
+  | ifEmpty (f : Fld) (thn : List EStmt)      -- `if recv.f == "" { thn }`
+  | ifMaskClear (bit : Nat) (thn : List EStmt) -- `if (zb0001Mask & bit) == 0 { thn }`
   | ret                                       -- `return` / `return bits, err` / `return nil` (with err known nil)
   | unknown (src : String)
 
@@ -45,6 +51,7 @@ inductive EStmt
 inductive EV
   | str (b : Bytes) | i64 (i : Int) | goval (g : GoVal) | et (t : Instant)
   | entries (l : List (Instant × GoVal)) | opts (o : Option Options) | bool (b : Bool) | heloOpts (o : Option HeloOpts)
+  | optInt (o : Option Int)
 
 inductive ERes | ok (out : Bytes) | err | panic (why : String)
 deriving DecidableEq
@@ -70,12 +77,14 @@ def encPrim : EPrim → EV → Option (Option Bytes)
 def isNilPtr : EV → Option Bool
   | .opts o => some o.isNone
   | .heloOpts o => some o.isNone
+  | .optInt o => some o.isNone
   | _ => none
 
 structure St where
   sz : Nat := 0
   out : Bytes
   err : Bool := false
+  mask : List Nat := []   -- the single bits set so far
 
 mutual
 def eexec {σ} (get : Fld → σ → Option EV) (src : σ) : EStmt → (St → ERes) → St → ERes
@@ -104,6 +113,14 @@ def eexec {σ} (get : Fld → σ → Option EV) (src : σ) : EStmt → (St → E
     | some false => eexecs get src thn k s
     | none => .panic "nil test on a field that is not a pointer"
   | .ifSzEq n thn, k, s => if s.sz = n then eexecs get src thn k s else k s
+  | .decSz, k, s => k { s with sz := s.sz - 1 }
+  | .orMask bit, k, s => k { s with mask := bit :: s.mask }
+  | .rawOrSz base, k, s => k { s with out := s.out ++ [UInt8.ofNat (base + s.sz)] }
+  | .ifEmpty f thn, k, s =>
+    match get f src with
+    | some (.str v) => if v = [] then eexecs get src thn k s else k s
+    | _ => .panic "emptiness test on a field that is not a string"
+  | .ifMaskClear bit thn, k, s => if s.mask.contains bit then k s else eexecs get src thn k s
   | .ret, _, s => if s.err then .err else .ok s.out
   | .unknown w, _, _ => .panic ("statement not understood by the translator: " ++ w)
 def eexecs {σ} (get : Fld → σ → Option EV) (src : σ) : List EStmt → (St → ERes) → St → ERes
@@ -205,6 +222,13 @@ def HeloOptsSrc.get : Fld → HeloOpts → Option EV
   | .Nonce, m => some (.str m.nonce)
   | .Auth, m => some (.str m.auth)
   | .Keepalive, m => some (.bool m.keepalive)
+  | _, _ => none
+
+def OptionsSrc.get : Fld → Options → Option EV
+  | .Size, o => some (.optInt o.size)
+  | .SizeDeref, o => o.size.map .i64      -- `*z.Size` with `z.Size == nil` is not a value
+  | .Chunk, o => some (.str o.chunk)
+  | .Compressed, o => some (.str o.compressed)
   | _, _ => none
 
 /-- `z.Options.Nonce` … behind a nil pointer are not values (Go would dereference nil) -/
